@@ -70,6 +70,7 @@ fn main() {
         }
         "C03" => mon::c03::run(&p),
         "C04" => mon::c04::run(&p),
+        "C05" => mon::c05::run(&p),
         "C06" => mon::c06::run(&p),
         "C07" => mon::c07::run(&p, mon::c07::Which::C07),
         "C14" => mon::c07::run(&p, mon::c07::Which::C14),
